@@ -4,7 +4,7 @@
 set -e
 cd "$(dirname "$0")"
 export GOFLAGS=-mod=mod GOPROXY=off GOSUMDB=off GOTOOLCHAIN=local
-tools/build_harness.sh /repo bin
+tools/build_harness.sh /repo "$(pwd)/bin"
 bin/extract /repo lean/PebblesVerif/Gen
 python3 tools/gen_all.py
 (cd lean && lake build 2>&1 | grep -v '^✔\|^ℹ\|^info:' | tail -40; exit ${PIPESTATUS[0]})
